@@ -58,6 +58,7 @@ type Runtime struct {
 	cond    *sync.Cond
 	enabled bool
 	releaseAll bool
+	parkedNow  int // goroutines currently held by a park rule
 }
 
 var cur *Runtime
@@ -111,6 +112,9 @@ func (r *Runtime) Stamp(point string, keys ...string) int {
 }
 
 // Len returns the number of events logged so far.
+// ParkedNow reports how many goroutines a park rule is holding at this moment.
+func (r *Runtime) ParkedNow() int { r.mu.Lock(); defer r.mu.Unlock(); return r.parkedNow }
+
 func (r *Runtime) Len() int { r.mu.Lock(); defer r.mu.Unlock(); return len(r.log) }
 
 // ReleaseAll makes every parked goroutine continue (end of a scenario).
@@ -212,6 +216,7 @@ func (r *Runtime) at(point string, keys []string) {
 			continue
 		}
 		rule.Parked++
+		r.parkedNow++
 		deadline := time.Now().Add(rule.Timeout)
 		timer := time.AfterFunc(rule.Timeout, func() { r.mu.Lock(); r.cond.Broadcast(); r.mu.Unlock() })
 		for !r.hasPassed(rule.Until, rule.UntilKeys) && !r.releaseAll {
@@ -222,6 +227,7 @@ func (r *Runtime) at(point string, keys []string) {
 			r.cond.Wait()
 		}
 		timer.Stop()
+		r.parkedNow--
 		seq := len(r.log)
 		r.log = append(r.log, Event{Seq: seq, G: g, Tid: r.tidOf(g), Point: point + "#released", Keys: append([]string(nil), keys...)})
 	}
